@@ -300,10 +300,10 @@ def check_C07(ctx):
 # ------------------------------------------------------------------------------------------------
 def check_C11(ctx):
     q = ctx.quick()
-    kinds = ["V", "W", "D", "E", "N", "TE", "TL", "A", "AN", "S", "U"]
+    kinds = ["V", "W", "D", "E", "N", "TE", "TL", "A", "AN", "S", "U", "BF", "BI"]
     cases = ctx.path("cases.ndjson")
-    run_mc(ctx, "MC_Stream", dict(MaxDocs=3 if q else 4, KindSet=kinds, SetsFinishedOnSyntax=True),
-           ["InvIter", "InvIterExact", "InvIterPrefix", "InvBatch", "InvTerminates", "EmitCase"], properties=["Terminates"],
+    run_mc(ctx, "MC_Stream", dict(MaxDocs=3 if q else 4, KindSet=kinds, SetsFinishedOnSyntax=True, PeekBreachEnds=False),
+           ["InvIter", "InvIterExact", "InvIterPrefix", "InvIterBudget", "InvBatch", "InvTerminates", "EmitCase"], properties=["Terminates"],
            workers=4, timeout=3000, cases_out=cases, label="MC_Stream", spec="FairSpec")
     ctx.exhaustive = True
     recs = ctx.path("recs.ndjson")
@@ -315,9 +315,10 @@ def check_C11(ctx):
     mism = run_tv(ctx, "TV_Stream", recs, timeout=3000)
     classify_mismatches(ctx, mism, recs, {}, "batch / iterator / single-document results differ from Stream!Batch / IterAdmissible / Single")
     return finish(ctx, "model_checking",
-                  "cases: every sequence of <= 3 (quick) / 4 (thorough) document kinds over 11 kinds enumerated by TLC, each rendered "
-                  "in several marker/comment variants and run through from_multiple, from_slice_multiple, read, from_str, "
-                  "from_reader, from_slice; plus random streams of 4-11 documents; non-trivial = distinct texts with >= 2 documents",
+                  "cases: every sequence of <= 3 (quick) / 4 (thorough) document kinds over 13 kinds enumerated by TLC, each rendered "
+                  "in several marker/comment variants and run through from_multiple, from_slice_multiple, read, read_valid, read_validate, "
+                  "read_with_options, the three iterators again with a scalar-byte budget that two of the kinds exceed (at the first node / "
+                  "inside), from_str, from_reader, from_slice; plus random streams of 4-11 documents; non-trivial = distinct texts with >= 2 documents",
                   ASSUME_COMMON + ["document kinds are rendered from a fixed table of texts; the element type is an untagged enum of integers and small maps"])
 
 
